@@ -1,0 +1,341 @@
+//go:build verif
+
+package kessoku
+
+import (
+	"fmt"
+	"go/ast"
+	"go/token"
+	"go/types"
+	"sort"
+	"strconv"
+	"strings"
+)
+
+// Verification driver (build tag verif only), "T" lines:
+//
+//	T <current package id or -> | <declared package names, by id> | <type>
+//
+// The type is an s-expression over: b<k> (predeclared name k), ( n <pkg> <name> <args>... ),
+// ( p t ), ( s t ), ( a <len> t ), ( m k v ), ( c <dir> t ), ( f <nparams> t... ), ( v t ) for a
+// variadic last parameter, ( st <name>:<embedded>,... t... ), ( i <method>,... sig... ), ie.
+// "G" lines add the names already registered in the VarPool:
+//
+//	G <current package id> | <declared package names> | <registered names> | <type>
+//
+// The answer is the serialised result of createASTTypeExpr and the import table.
+var verifBasics = []string{"int", "string", "bool", "float64", "error", "any", "byte", "uint8"}
+
+type verifTypes struct {
+	pkgs    []*types.Package
+	generic map[string]*types.Named
+	toks    []string
+	pos     int
+	bad     bool
+}
+
+func (v *verifTypes) next() string {
+	if v.pos >= len(v.toks) {
+		v.bad = true
+		return ""
+	}
+	t := v.toks[v.pos]
+	v.pos++
+	return t
+}
+
+func (v *verifTypes) num() int {
+	n, err := strconv.Atoi(v.next())
+	if err != nil {
+		v.bad = true
+	}
+	return n
+}
+
+func (v *verifTypes) kids() []types.Type {
+	var out []types.Type
+	for !v.bad && v.pos < len(v.toks) && v.toks[v.pos] != ")" {
+		out = append(out, v.parse())
+	}
+	v.next() // ")"
+	return out
+}
+
+func (v *verifTypes) named(pkg, name int, args []types.Type) types.Type {
+	if pkg < 0 || pkg >= len(v.pkgs) {
+		v.bad = true
+		return types.Typ[types.Int]
+	}
+	key := fmt.Sprintf("%d.%d", pkg, name)
+	g, ok := v.generic[key]
+	if !ok {
+		g = types.NewNamed(types.NewTypeName(token.NoPos, v.pkgs[pkg], fmt.Sprintf("N%d", name-16), nil), types.NewStruct(nil, nil), nil)
+		if len(args) > 0 {
+			var tps []*types.TypeParam
+			for i := range args {
+				tps = append(tps, types.NewTypeParam(types.NewTypeName(token.NoPos, v.pkgs[pkg], fmt.Sprintf("T%d", i), nil), types.Universe.Lookup("any").Type()))
+			}
+			g.SetTypeParams(tps)
+		}
+		v.generic[key] = g
+	}
+	if g.TypeParams().Len() != len(args) {
+		v.bad = true
+		return g
+	}
+	if len(args) == 0 {
+		return g
+	}
+	inst, err := types.Instantiate(nil, g, args, false)
+	if err != nil {
+		v.bad = true
+		return g
+	}
+	return inst
+}
+
+func (v *verifTypes) parse() types.Type {
+	t := v.next()
+	switch {
+	case t == "ie":
+		return types.NewInterfaceType(nil, nil)
+	case strings.HasPrefix(t, "b"):
+		k, err := strconv.Atoi(t[1:])
+		if err != nil || k < 0 || k >= len(verifBasics) {
+			v.bad = true
+			return types.Typ[types.Int]
+		}
+		return types.Universe.Lookup(verifBasics[k]).Type()
+	case t != "(":
+		v.bad = true
+		return types.Typ[types.Int]
+	}
+	switch v.next() {
+	case "n":
+		pkg, name := v.num(), v.num()
+		return v.named(pkg, name, v.kids())
+	case "p":
+		k := v.kids()
+		if len(k) != 1 {
+			v.bad = true
+			return types.Typ[types.Int]
+		}
+		return types.NewPointer(k[0])
+	case "s":
+		k := v.kids()
+		if len(k) != 1 {
+			v.bad = true
+			return types.Typ[types.Int]
+		}
+		return types.NewSlice(k[0])
+	case "a":
+		n := v.num()
+		k := v.kids()
+		if len(k) != 1 {
+			v.bad = true
+			return types.Typ[types.Int]
+		}
+		return types.NewArray(k[0], int64(n))
+	case "m":
+		k := v.kids()
+		if len(k) != 2 {
+			v.bad = true
+			return types.Typ[types.Int]
+		}
+		return types.NewMap(k[0], k[1])
+	case "c":
+		d := v.num()
+		k := v.kids()
+		if len(k) != 1 || d < 0 || d > 2 {
+			v.bad = true
+			return types.Typ[types.Int]
+		}
+		return types.NewChan([]types.ChanDir{types.SendRecv, types.SendOnly, types.RecvOnly}[d], k[0])
+	case "v":
+		// only meaningful as the last parameter of "f": the parameter's type is the slice
+		k := v.kids()
+		if len(k) != 1 {
+			v.bad = true
+			return types.Typ[types.Int]
+		}
+		return verifVariadic{types.NewSlice(k[0])}
+	case "f":
+		np := v.num()
+		k := v.kids()
+		if np < 0 || np > len(k) {
+			v.bad = true
+			return types.Typ[types.Int]
+		}
+		variadic := false
+		var ps, rs []*types.Var
+		for i, t := range k {
+			if vt, ok := t.(verifVariadic); ok {
+				if i != np-1 {
+					v.bad = true
+				}
+				variadic = true
+				t = vt.Slice
+			}
+			if i < np {
+				ps = append(ps, types.NewVar(token.NoPos, nil, "", t))
+			} else {
+				rs = append(rs, types.NewVar(token.NoPos, nil, "", t))
+			}
+		}
+		return types.NewSignatureType(nil, nil, nil, types.NewTuple(ps...), types.NewTuple(rs...), variadic)
+	case "i":
+		spec := v.next()
+		k := v.kids()
+		names := strings.Split(spec, ",")
+		if len(names) != len(k) {
+			v.bad = true
+			return types.Typ[types.Int]
+		}
+		var ms []*types.Func
+		for i, n := range names {
+			sig, ok := k[i].(*types.Signature)
+			if !ok {
+				v.bad = true
+				return types.Typ[types.Int]
+			}
+			ms = append(ms, types.NewFunc(token.NoPos, nil, "M"+n, sig))
+		}
+		return types.NewInterfaceType(ms, nil).Complete()
+	case "st":
+		spec := v.next()
+		k := v.kids()
+		var fields []*types.Var
+		parts := strings.Split(spec, ",")
+		if spec == "-" {
+			parts = nil
+		}
+		if len(parts) != len(k) {
+			v.bad = true
+			return types.Typ[types.Int]
+		}
+		for i, p := range parts {
+			ne := strings.SplitN(p, ":", 2)
+			if len(ne) != 2 {
+				v.bad = true
+				return types.Typ[types.Int]
+			}
+			fields = append(fields, types.NewField(token.NoPos, nil, "F"+ne[0], k[i], ne[1] == "1"))
+		}
+		return types.NewStruct(fields, nil)
+	}
+	v.bad = true
+	return types.Typ[types.Int]
+}
+
+// verifVariadic marks the last parameter of a variadic signature while parsing.
+type verifVariadic struct{ *types.Slice }
+
+func verifExprString(e ast.Expr) string {
+	list := func(es []ast.Expr) string {
+		var out []string
+		for _, x := range es {
+			out = append(out, verifExprString(x))
+		}
+		return strings.Join(out, ",")
+	}
+	fields := func(fl *ast.FieldList) []ast.Expr {
+		var out []ast.Expr
+		if fl != nil {
+			for _, f := range fl.List {
+				out = append(out, f.Type)
+			}
+		}
+		return out
+	}
+	switch x := e.(type) {
+	case *ast.Ident:
+		return x.Name
+	case *ast.SelectorExpr:
+		return verifExprString(x.X) + "." + x.Sel.Name
+	case *ast.IndexExpr:
+		return verifExprString(x.X) + "[" + verifExprString(x.Index) + "]"
+	case *ast.IndexListExpr:
+		return verifExprString(x.X) + "[" + list(x.Indices) + "]"
+	case *ast.StarExpr:
+		return "*" + verifExprString(x.X)
+	case *ast.ArrayType:
+		if x.Len == nil {
+			return "[]" + verifExprString(x.Elt)
+		}
+		return "[" + verifExprString(x.Len) + "]" + verifExprString(x.Elt)
+	case *ast.BasicLit:
+		return x.Value
+	case *ast.MapType:
+		return "map[" + verifExprString(x.Key) + "]" + verifExprString(x.Value)
+	case *ast.ChanType:
+		d := map[ast.ChanDir]int{ast.SEND | ast.RECV: 0, ast.SEND: 1, ast.RECV: 2}[x.Dir]
+		return fmt.Sprintf("chan%d(%s)", d, verifExprString(x.Value))
+	case *ast.FuncType:
+		return "func(" + list(fields(x.Params)) + ";" + list(fields(x.Results)) + ")"
+	case *ast.Ellipsis:
+		return "..." + verifExprString(x.Elt)
+	case *ast.StructType:
+		var out []string
+		for _, f := range x.Fields.List {
+			if len(f.Names) == 0 {
+				out = append(out, "~"+verifExprString(f.Type))
+			} else {
+				out = append(out, f.Names[0].Name+" "+verifExprString(f.Type))
+			}
+		}
+		return "struct{" + strings.Join(out, ";") + "}"
+	case *ast.InterfaceType:
+		if x.Methods == nil || len(x.Methods.List) == 0 {
+			return "interface{}"
+		}
+		var out []string
+		for _, f := range x.Methods.List {
+			if len(f.Names) == 0 {
+				out = append(out, "~"+verifExprString(f.Type))
+			} else {
+				out = append(out, f.Names[0].Name+" "+verifExprString(f.Type))
+			}
+		}
+		return "interface{" + strings.Join(out, ";") + "}"
+	}
+	return fmt.Sprintf("<%T>", e)
+}
+
+func verifTypeLine(line string) string {
+	parts := strings.Split(line, "|")
+	if len(parts) != 4 {
+		return "BAD"
+	}
+	v := &verifTypes{generic: map[string]*types.Named{}}
+	for i, name := range strings.Fields(parts[1]) {
+		v.pkgs = append(v.pkgs, types.NewPackage(fmt.Sprintf("x/p%d", i), name))
+	}
+	k, err := strconv.Atoi(strings.TrimSpace(parts[0]))
+	if err != nil || k < 0 || k >= len(v.pkgs) {
+		return "BAD"
+	}
+	cur := v.pkgs[k]
+	vp := NewVarPool()
+	for _, pre := range strings.Fields(parts[2]) {
+		vp.GetName(pre)
+	}
+	v.toks = strings.Fields(parts[3])
+	t := v.parse()
+	if v.bad || v.pos != len(v.toks) {
+		return "BAD"
+	}
+	if _, ok := t.(verifVariadic); ok {
+		return "BAD"
+	}
+	imports := map[string]*Import{}
+	expr, err := createASTTypeExpr(cur.Path(), t, vp, imports)
+	if err != nil {
+		return "ERR"
+	}
+	var imps []string
+	for path, imp := range imports {
+		imps = append(imps, strings.TrimPrefix(path, "x/")+"="+imp.Name)
+	}
+	sort.Strings(imps)
+	return "G " + verifExprString(expr) + " | " + strings.Join(imps, " ")
+}
